@@ -670,6 +670,14 @@ class Evaluator:
                 return a * b
             if isinstance(e.op, ast.Mult) and isinstance(b, (bytes, str, tuple)) and isinstance(a, int) and not isinstance(a, bool) and 0 <= a < 10000:
                 return a * b
+            if isinstance(a, (int, float)) and isinstance(b, (int, float)) and (isinstance(a, float) or isinstance(b, float)) \
+                    and not isinstance(a, bool) and not isinstance(b, bool) and isinstance(e.op, (ast.Add, ast.Sub, ast.Mult, ast.Div)):
+                # float arithmetic as the interpreter does it (IEEE double): only + - * / - the rules choose exactly representable models
+                if isinstance(e.op, ast.Div):
+                    if b == 0:
+                        raise ModelRaise(Outcome("raise", "ZeroDivisionError", e))
+                    return a / b
+                return a + b if isinstance(e.op, ast.Add) else a - b if isinstance(e.op, ast.Sub) else a * b
             if not isinstance(a, int) or not isinstance(b, int):
                 raise Unsupported(e)
             op = e.op
@@ -993,6 +1001,22 @@ class Evaluator:
                 if not isinstance(v, tuple) or len(v) != len(tgt.elts):
                     raise Unsupported(st)
                 for x, y in zip(tgt.elts, v):
+                    self.env[x.id] = y
+                return None
+            if isinstance(tgt, (ast.Tuple, ast.List)) and st.value is not None and sum(isinstance(x, ast.Starred) for x in tgt.elts) == 1 \
+                    and all(isinstance(x, ast.Name) or (isinstance(x, ast.Starred) and isinstance(x.value, ast.Name)) for x in tgt.elts):
+                # a, *rest, z = seq
+                v = self.ev(st.value)
+                k_star = [i for i, x in enumerate(tgt.elts) if isinstance(x, ast.Starred)][0]
+                n_after = len(tgt.elts) - k_star - 1
+                if not isinstance(v, tuple) or len(v) < len(tgt.elts) - 1:
+                    if isinstance(v, tuple):
+                        raise ModelRaise(Outcome("raise", "ValueError", st))
+                    raise Unsupported(st)
+                for x, y in zip(tgt.elts[:k_star], v[:k_star]):
+                    self.env[x.id] = y
+                self.env[tgt.elts[k_star].value.id] = tuple(v[k_star:len(v) - n_after])
+                for x, y in zip(tgt.elts[k_star + 1:], v[len(v) - n_after:] if n_after else ()):
                     self.env[x.id] = y
                 return None
             if isinstance(tgt, (ast.Tuple, ast.List)) and st.value is not None and not any(isinstance(x, ast.Starred) for x in tgt.elts):
